@@ -36,7 +36,8 @@ pub fn props(rng: &mut Rng, n: usize) -> Vec<Prop> {
     (0..n)
         .map(|i| Prop {
             name: if i == 0 { "textures".to_string() } else { format!("p{}_{}", i, rng.ascii_name(1, 5)) },
-            value: vp_common::report::hex(&rng.bytes_between(1, 24)),
+            // (a property may have an empty value: it is a property all the same)
+            value: if rng.chance(1, 7) { String::new() } else { vp_common::report::hex(&rng.bytes_between(1, 24)) },
             signature: if rng.bool() { Some(vp_common::report::hex(&rng.bytes(12))) } else { None },
         })
         .collect()
